@@ -1,6 +1,39 @@
-/-! line protocol for C18 (stub: no model yet) -/
+import ObiVerif.Model.WriteErr
+import ObiVerif.Driver.Util
+/-! line protocol for C18: `<writer> gz=<0|1> k=<limit> cf=<0|1> zlen=<n> <order>:<nseq>:<hex text> …` -/
 namespace ObiVerif.Driver.C18
+open ObiVerif.WriteErr ObiVerif.Driver
 
-def run (_line : String) : String := "bad-op"
+def parseChunk (s : String) : Option (Nat × Bytes) :=
+  match s.splitOn ":" with
+  | [o, _, h] => do
+    let k ← o.toNat?
+    let b ← unhex h
+    pure (k, b)
+  | _ => none
+
+def kv (key : String) (s : String) : Option Nat :=
+  if s.startsWith (key ++ "=") then (s.drop (key.length + 1)).toString.toNat? else none
+
+def showOut (r : Outcome × Bytes) : String :=
+  match r.1 with
+  | .ok => s!"ok got={r.2.length}"
+  | .fatal => s!"fatal got={r.2.length}"
+
+def run (line : String) : String :=
+  match words line with
+  | "cmd" :: _ => "exit-nonzero"   -- a command whose output cannot be written must fail
+  | w :: gz :: k :: cf :: zl :: rest =>
+    match kv "gz" gz, kv "k" k, kv "cf" cf, kv "zlen" zl, rest.mapM parseChunk with
+    | some gz, some k, some cf, some zlen, some arr =>
+      if gz = 1 then
+        -- compressed output: the codec is not modelled; the result fits the output iff the limit
+        -- is at least the compressed size measured on a non failing run
+        if k ≥ zlen && cf = 0 then "ok" else "fatal"
+      else if w = "fasta" || w = "fastq" || w = "csv" then showOut (writeRaw 4096 k (cf = 1) arr)
+      else if w = "json" then showOut (writeJson 4096 k (cf = 1) arr)
+      else "bad-op"
+    | _, _, _, _, _ => "bad-op"
+  | _ => "bad-op"
 
 end ObiVerif.Driver.C18
